@@ -1,6 +1,7 @@
 (* C04 - trajectory alignment. Proofs in Evo.AlignProofs (on top of UmeyamaProofs / TrajProofs). *)
 From Coq Require Import Reals List Bool.
 From Evo Require Import Num Linalg LinalgR Lie LieProofs Umeyama UmeyamaProofs Traj Align AlignProofs.
+From Evo Require AlignPath.
 From EvoGen Require StepsC04.
 Import ListNotations.
 Local Open Scope R_scope.
@@ -98,3 +99,12 @@ Theorem C04_alignment_matches_centroids_of_the_poses_used : forall svd eps (P re
   mean (take n (positions P')) = mean (take n (positions ref)).
 Proof. exact align_matches_centroids. Qed.
 Print Assumptions C04_alignment_matches_centroids_of_the_poses_used.
+
+(* ---- path length (added after every property had a check): a (not scale-only) alignment multiplies the path length of the
+   estimate by the returned scale, which is 1 without scale correction ---- *)
+Theorem C04_alignment_scales_path_length_by_returned_scale : forall svd eps (P ref : list PoseR) cs n P' r t c, 0 <= eps ->
+  svd_at svd (cov_xy (take n (positions P)) (take n (positions ref))) ->
+  @align R _ svd eps P ref cs false n = Some (P', (r, t, c)) ->
+  @path_length R _ (positions P') = c * @path_length R _ (positions P) /\ (cs = false -> c = 1).
+Proof. exact AlignPath.align_scales_path_length. Qed.
+Print Assumptions C04_alignment_scales_path_length_by_returned_scale.
